@@ -20,6 +20,9 @@ func main() {
 	showModel := flag.String("model", "", "verify: print the model of failing obligations whose name contains this string")
 	flag.Parse()
 	keepQueries = *keep
+	if sf := os.Getenv("GOVC_STATS"); sf != "" {
+		statsFile, _ = os.OpenFile(sf, os.O_CREATE|os.O_APPEND|os.O_WRONLY, 0o644)
+	}
 	args := flag.Args()
 	if len(args) == 0 {
 		fmt.Println("usage: govc [flags] verify <funcKey>... | list")
